@@ -74,6 +74,9 @@ func (r *spaceRunner) bytesCase(entry string, in []byte) {
 	}
 	r.w.S.Evaluations++
 	r.w.S.Traces++
+	if r.ord%200003 == 1 {
+		r.w.Sample(entry + ": " + strconv.Quote(string(in)))
+	}
 	entryBundles[entry](in, r.mk(entry, in, nil))
 }
 
@@ -87,6 +90,9 @@ func (r *spaceRunner) projectCase(entry string, p *project) {
 	}
 	r.w.S.Evaluations++
 	r.w.S.Traces++
+	if r.ord%50021 == 1 {
+		r.w.Sample("project:" + entry + ": " + trunc(p.describe(), 300))
+	}
 	bundleProject(p, r.mk("project:"+entry, []byte(p.describe()), wit))
 }
 
